@@ -133,6 +133,38 @@ Fifth round (blocks marked `x5`; run-time additions in ``lean/PkgModel/PySet.lea
   other        ``sorted(xs)`` of strings, ``iter(xs)``, ``bool(x)``, ``"…{}…".format(*xs)``, ``map(<tracked class>, xs)``,
                ``Specifier(…)`` as the primitive ``PySet.mkSpecifier`` (scanner ``S.parseSpec``; only while the source of
                ``Specifier.__init__`` has the digest in ``PRIMITIVE_INIT_GUARDS``), ``s.strip()`` in ``specifiers.py``
+Sixth round (blocks marked `x6`; run-time additions in ``lean/PkgModel/PyPlat.lean``, ``PyElf.lean``, ``PyMd.lean``):
+  rewriting    the functions listed in ``X6_FUNCTIONS`` go through a pass over their ast (``_X6Rewrite``, before the analyses)
+               that brings the platform code into the subset and leaves pseudo-calls ``__x6_*`` for ``Fn.x6_call``; every
+               rewrite keeps Python's evaluation order, what cannot be rewritten faithfully is left alone and then refused:
+               ``import m`` inside a function (the module found — or the ImportError — is the environment entry ``import m``;
+               ``hasattr(m, "a")``, ``m.a``, ``m.f(args)`` on it: ``PyPlat.hasattr`` / ``call_attr``), ``with <probe>(…) as f:``
+               for the probes in ``X6_ENV_CONTEXTS`` (``f = <probe>(…)`` then the body), unpacking into more than three names
+               or into ``self.x`` targets (``PyPlat.unpack_n`` then one assignment per target, left to right), named tuples of
+               the module as plain tuples (``C(a, b)``, ``C(*xs)``, ``C(k=…)`` in field order; ``.field`` by index), module-level
+               dicts with tuple keys / a ``defaultdict`` (``k in D``, ``D[k]``: current contents and default inlined), a dict
+               display subscripted or ``.get``-ed at once, ``&``, members of ``IntEnum`` classes as their numbers, a local bound
+               once to a set display of constants and only used in ``in`` tests, ``"…{k}…".format(k=…)`` with the keywords in
+               field order (an f-string), a parameter left to a default that is a probe of the interpreter
+               (``_32_BIT_INTERPRETER``: read from the environment), ``subprocess.run(…).stdout`` as a read of the environment
+               under the key *source text of that expression* (``PyPlat.env_read``)
+  probes       ``sysconfig.get_platform()``, ``platform.mac_ver()/ios_ver()/system()``, ``_get_musl_version(exe)``,
+               ``_parse_elf(exe)``, ``sys.executable``, ``sys.implementation._multiarch`` are environment entries;
+               ``functools.lru_cache`` wrappers in ``X6_TRANSPARENT_CACHES`` are translated through ``__wrapped__``;
+               ``<module of packaging>.<function>(…)`` is a call of that (translated) function; a function that is both a
+               probe of earlier rounds and translated now (``platform_tags``) stays a probe for its earlier callers
+  ELFFile      the binary file is a value held in ``self._f`` (``PyElf.fileOf data pos``): ``self._f.seek(x)`` rebinds ``self``,
+               ``self._read(fmt)`` is the primitive ``PyElf.read_struct`` (guarded by a digest of ``ELFFile._read``; it reads the
+               format *string*, so the layout strings of the source are tied to ``Gen.TagTables.elfFormats`` by the theorem);
+               in ``__init__`` a read rebinds ``self`` as well (sequential reads), in any other method every read must directly
+               follow a ``seek`` (``seek_first``), so the position a read leaves behind is never observed; ``bytes(xs)``, bytes
+               constants, ``os.fsdecode`` (ASCII), ``s.strip(chars)``
+  metadata     ``message = EmailMessage(); message["content-type"] = v`` is the oracle call ``EmailMessage.set_content_type(v)``
+               whose answer stands for ``(get_content_type().lower(), params)``; ``_Validator.__get__`` (exact statement shapes
+               only): ``cache = instance.__dict__`` makes the record's field list the instance dict (``cache[k] = v`` is
+               ``PyMd.setattr_dyn``), ``del instance._raw[k]`` is ``PyMd.del_field_item``, the reflective
+               ``getattr(self, f"_process_{self.name}")`` with its ``AttributeError`` fall-through is a dispatcher over the
+               ``_process_*`` methods the class defines, and the function hands back ``(value, instance)``
 Checks made by the translator (a failure makes the function unsupported):
   * a local changed inside a ``try`` body (other than by its last simple statement) must not be read in a handler or after
     a handler that falls through: Lean's ``try … catch`` restores the locals of the ``try`` start;
@@ -491,6 +523,63 @@ CONSUMERS |= {"map"}
 # member classes whose `__hash__` is Python code that can raise: building a set of them evaluates it for every element
 X5_HASHED_MEMBERS = {("packaging.specifiers", "Specifier")}
 # --- x5 end -----------------------------------------------------------------------------------------------------------
+# --- x6: sixth round (platform remainder, C16; run-time additions in lean/PkgModel/PyPlat.lean, PyElf.lean) --------------
+SELECTED += [
+    ("_parse_musl_version", "packaging._musllinux", "_parse_musl_version"),
+    ("_musllinux.platform_tags", "packaging._musllinux", "platform_tags"),
+    ("_is_compatible", "packaging._manylinux", "_is_compatible"),
+    ("_manylinux.platform_tags", "packaging._manylinux", "platform_tags"),
+    ("_linux_platforms", "packaging.tags", "_linux_platforms"),
+    ("mac_platforms", "packaging.tags", "mac_platforms"),
+    ("ios_platforms", "packaging.tags", "ios_platforms"),
+    ("tags.platform_tags", "packaging.tags", "platform_tags"),
+]
+X6_IMPORT = "PkgModel.PyPlat"
+# modules whose function bodies go through the x6 rewriting pass (`Fn.x6_prepare`) before the analyses
+X6_MODULES = {"packaging._manylinux", "packaging._musllinux", "packaging.tags", "packaging._elffile"}
+# functions of these modules that existed before x6 keep their translation byte for byte: the pass only runs for the
+# functions listed here and for helpers first reached from them
+X6_FUNCTIONS = {
+    ("packaging._musllinux", "_parse_musl_version"), ("packaging._musllinux", "platform_tags"),
+    ("packaging._manylinux", "_is_compatible"), ("packaging._manylinux", "platform_tags"),
+    ("packaging._manylinux", "_have_compatible_abi"), ("packaging._manylinux", "_is_linux_armhf"),
+    ("packaging._manylinux", "_is_linux_i686"), ("packaging._manylinux", "_get_glibc_version"),
+    ("packaging.tags", "_linux_platforms"), ("packaging.tags", "mac_platforms"), ("packaging.tags", "ios_platforms"),
+    ("packaging.tags", "platform_tags"), ("packaging.tags", "_generic_platforms"),
+    ("packaging._elffile", "ELFFile.__init__"), ("packaging._elffile", "ELFFile.interpreter"),
+}
+METHODS.update({"splitlines": ("PyPlat.str_splitlines", 0)})
+UNICODE_STRIP["packaging._musllinux"] = ("PySet.str_strip", X5_IMPORT)
+EXTERNAL_READS |= {"sys.executable", "sys.implementation._multiarch", "_32_BIT_INTERPRETER"}
+# probes of the world outside: calls become look-ups in the environment table (`PyRt.env_call`)
+EXTERNAL_CALLS |= {"sysconfig.get_platform", "platform.mac_ver", "platform.ios_ver", "platform.system",
+                   "_get_musl_version", "_parse_elf"}
+# `functools.lru_cache` wrappers that are translated through `__wrapped__`: the function reads nothing but the
+# environment, which is fixed during a run, so the cache cannot be observed
+X6_TRANSPARENT_CACHES = {("packaging._manylinux", "_get_glibc_version")}
+# context managers that are probes: `with P(a) as f: body` is `f = P(a)` followed by the body (the manager of `_parse_elf`
+# yields the parsed file or None; nothing in the bodies can raise what it would swallow)
+X6_ENV_CONTEXTS = {"_parse_elf"}
+SELECTED += [
+    ("ELFFile.__init__", "packaging._elffile", "ELFFile.__init__"),
+    ("ELFFile.interpreter", "packaging._elffile", "ELFFile.interpreter"),
+]
+X6_ELF_IMPORT = "PkgModel.PyElf"
+# `self._read(fmt)` is the primitive `PyElf.read_struct` only while `ELFFile._read` has this source (sha256 over its ast)
+X6_ELF_READ_GUARD = "ad49ef43b6d602e7ae6cbfa4457d008915cdfaaef611d7ec4df2b98d8bd0fc3f"
+# x6: metadata (C17): the `EmailMessage` of `_process_description_content_type` answers through the oracle, as `Meta.Oracle.ctype`:
+# `message["content-type"] = value` is the call `EmailMessage.set_content_type(value)` whose answer is the pair
+# `(get_content_type().lower(), dict of the header's params)` (or the exception the setter raised)
+SELECTED += [("_Validator._process_description_content_type", "packaging.metadata", "_Validator._process_description_content_type")]
+X6_FUNCTIONS |= {("packaging.metadata", "_Validator._process_description_content_type")}
+ORACLE_CALLS["packaging.metadata"] |= {"EmailMessage.set_content_type"}
+# x6: `_Validator.__get__`: the instance `__dict__` is the field list of the object (`cache[k] = v` is a functional update of
+# `instance`), `del instance._raw[k]` updates the `_raw` field, the reflective `getattr(self, f"_process_{self.name}")` is a
+# dispatcher over the `_process_*` methods the class defines; the function hands back `(value, instance)`
+SELECTED += [("_Validator.__get__", "packaging.metadata", "_Validator.__get__")]
+X6_FUNCTIONS |= {("packaging.metadata", "_Validator.__get__")}
+X6_MD_IMPORT = "PkgModel.PyMd"
+# --- x6 end -----------------------------------------------------------------------------------------------------------
 
 
 # ---------------------------------------------------------------------------------------------- one function
@@ -1315,6 +1404,7 @@ class Fn:
         self.lines.append("  " * indent + text)
 
     def translate(self):
+        self.x6_prepare()                                     # x6: rewriting pass over the ast
         self.analyse()
         params = self.params()
         sig = " ".join(lname(p) for p in params)
@@ -2262,6 +2352,9 @@ class Fn:
                     continue
                 raise Unsupported("**kwargs in a call")
             kws[k.arg] = k.value
+        r6 = self.x6_call(e, kws)                             # x6
+        if r6 is not None:
+            return r6
         r3 = self.x3_call(e, kws)
         if r3 is not None:
             return r3
@@ -4039,6 +4132,619 @@ class Fn:
                 return False, f"PyRt.map_ {self.fn_arg(lam)} {self.val(args[1])}"
         return None
     # ================================================================================================ x5 end
+
+    # ================================================================================================ x6 extensions
+    # A rewriting pass over the function's ast (`x6_prepare`, before the analyses) brings the platform code into the subset:
+    # `import m` inside a function, `with <probe>(…) as f`, unpacking into more than three names / into attributes, named
+    # tuples as plain tuples (`.field` by index), module-level dicts with tuple keys, `&`, enum members, `str.format` with
+    # keyword fields, `subprocess.run(…).stdout` as a read of the environment keyed by the source text of the call.  The
+    # pseudo-calls `__x6_*` it leaves are translated by `x6_call`.
+    def x6_active(self):
+        return (self.pyfunc.__module__, self.pyfunc.__qualname__) in X6_FUNCTIONS
+
+    def x6_prepare(self):
+        if not self.x6_active():
+            return
+        self.node = _X6Rewrite(self).run(self.node)
+        ast.fix_missing_locations(self.node)
+
+    def x6_import_locals(self):
+        return {t.id for n in _walk_scope(self.node.body) if isinstance(n, ast.Assign) and isinstance(n.value, ast.Call)
+                and isinstance(n.value.func, ast.Name) and n.value.func.id == "__x6_import" for t in n.targets
+                if isinstance(t, ast.Name)}
+
+    def x6_gdict(self, name):
+        d = self.globals.get(name)
+        if not isinstance(d, dict):
+            raise Unsupported(f"{name} is not a module-level dict")
+        rows = ", ".join(f"({lconst(k)}, {lconst(v)})" for k, v in d.items())
+        dflt = "Option.none"
+        factory = getattr(d, "default_factory", None)
+        if factory is not None:
+            dflt = f"(some {lconst(factory())})"
+        return f"[{rows}]", dflt
+
+    def x6_call(self, e, kws):
+        f = e.func
+        # a probe that is *also* translated (`platform_tags`): its callers of the earlier rounds keep reading the table
+        if isinstance(f, ast.Name) and f.id in EXTERNAL_CALLS and f.id not in self.locals and not kws \
+                and inspect.isfunction(self.globals.get(f.id)) and self.ctx.lean_name_of(self.globals[f.id]) is not None:
+            args = ", ".join(self.val(a) for a in e.args)
+            return False, f'PyRt.env_call {self.use_env()} "{f.id}" [{args}]'
+        if not self.x6_active():
+            return None
+        use = lambda: self.ctx.imports.add(X6_IMPORT)
+        if isinstance(f, ast.Name) and f.id.startswith("__x6_"):
+            use()
+            a = e.args
+            if f.id == "__x6_import":
+                return False, f'PyPlat.env_import {self.use_env()} "{a[0].value}"'
+            if f.id == "__x6_env_read":
+                key = a[0].value.replace("\\", "\\\\").replace('"', '\\"')
+                return False, f'PyPlat.env_read {self.use_env()} "{key}"'
+            if f.id == "__x6_tuple_n":
+                return False, f"PyPlat.tuple_n {self.val(a[0])} {self.val(a[1])}"
+            if f.id == "__x6_unpack":
+                return False, f"PyPlat.unpack_n {self.val(a[0])} {self.val(a[1])}"
+            if f.id == "__x6_gdict_contains":
+                rows, _ = self.x6_gdict(a[0].value)
+                return False, f"PyPlat.gdict_contains {rows} {self.val(a[1])}"
+            if f.id == "__x6_gdict_getitem":
+                rows, dflt = self.x6_gdict(a[0].value)
+                return False, f"PyPlat.gdict_getitem {rows} {dflt} {self.val(a[1])}"
+            if f.id == "__x6_dict_lookup":
+                d = a[0]
+                rows = ", ".join(f"({lconst(ast.literal_eval(k))}, {self.val(v)})" for k, v in zip(d.keys, d.values))
+                return False, f"PyPlat.gdict_getitem [{rows}] Option.none {self.val(a[1])}"
+            if f.id == "__x6_dict_get":
+                return False, f"PyRt.dict_get {self.val(a[0])} {self.val(a[1])} {self.val(a[2])}"
+            if f.id == "__x6_ext":
+                if a[0].value not in self.x3_oracles():
+                    raise Unsupported(f"{a[0].value} is not an oracle of this module")
+                return False, f'PyRt.ext_call {self.use_ext()} "{a[0].value}" [' + ", ".join(self.val(x) for x in a[1:]) + "]"
+            if f.id == "__x6_setattr_dyn":
+                self.ctx.imports.add(X6_MD_IMPORT)
+                return False, f"PyMd.setattr_dyn {self.val(a[0])} {self.val(a[1])} {self.val(a[2])}"
+            if f.id == "__x6_del_item":
+                self.ctx.imports.add(X6_MD_IMPORT)
+                return False, f'PyMd.del_field_item {self.val(a[0])} "{a[1].value}" {self.val(a[2])}'
+            if f.id == "__x6_process":
+                return False, self.x6_process_dispatcher() + f" {self.use_ext()} {self.val(a[0])} {self.val(a[1])}"
+            if f.id == "__x6_bitand":
+                return False, f"PyPlat.bitand {self.val(a[0])} {self.val(a[1])}"
+            r = self.x6_elf_call(e, kws)
+            if r is not None:
+                return r
+            raise Unsupported(f"pseudo-call {f.id}")
+        mods = self.x6_import_locals()
+        if isinstance(f, ast.Name) and f.id == "hasattr" and len(e.args) == 2 and not kws and isinstance(e.args[0], ast.Name) \
+                and e.args[0].id in mods and isinstance(e.args[1], ast.Constant) and isinstance(e.args[1].value, str):
+            use()
+            return True, f'(PyPlat.hasattr {self.val(e.args[0])} "{e.args[1].value}")'
+        if isinstance(f, ast.Attribute) and isinstance(f.value, ast.Name) and f.value.id in mods and not kws \
+                and not any(isinstance(a, ast.Starred) for a in e.args):
+            use()
+            return False, f'PyPlat.call_attr {self.val(f.value)} "{f.attr}" [' + ", ".join(self.val(a) for a in e.args) + "]"
+        if isinstance(f, ast.Name) and f.id not in self.locals and f.id not in self.bound_stack():
+            v = self.globals.get(f.id)
+            if type(v).__name__ == "_lru_cache_wrapper" and inspect.isfunction(getattr(v, "__wrapped__", None)):
+                w = v.__wrapped__
+                if (w.__module__, w.__qualname__) in X6_TRANSPARENT_CACHES:
+                    name = self.ctx.require(w)
+                    return False, self.call_selected(name, self.bind_args(w, e.args, kws))
+                if f.id in EXTERNAL_CALLS and not kws:
+                    args = ", ".join(self.val(a) for a in e.args)
+                    return False, f'PyRt.env_call {self.use_env()} "{f.id}" [{args}]'
+                raise Unsupported(f"call of the cached function {f.id}")
+        # `<module of the library>.<function>(…)`: a function of another module of packaging, translated as well
+        if isinstance(f, ast.Attribute) and isinstance(f.value, ast.Name) and f.value.id not in self.locals \
+                and f.value.id not in self.bound_stack() and inspect.ismodule(self.globals.get(f.value.id)) \
+                and (self.globals[f.value.id].__name__ or "").startswith("packaging."):
+            m = self.globals[f.value.id]
+            v = getattr(m, f.attr, None)
+            if inspect.isfunction(v) and v.__module__ == m.__name__:
+                name = self.ctx.require(v, name=m.__name__.split(".")[-1] + "." + v.__qualname__)
+                return False, self.call_selected(name, self.bind_args(v, e.args, kws))
+        return None
+
+    def x6_process_dispatcher(self):
+        """`getattr(self, f"_process_{self.name}")(value)` with the `AttributeError` fall-through: a chain of tests on `self.name`
+        over the `_process_*` methods the class defines now (a method added or removed changes the definition)"""
+        c = self.owner
+        dname = f"{c.__name__}._process__dyn"
+        if dname not in self.ctx.dispatchers:
+            body, deps = "", set()
+            for n, impl in vars(c).items():
+                if n.startswith("_process_") and inspect.isfunction(impl):
+                    fn = self.ctx.require(impl)
+                    deps.add(fn)
+                    ext = " ext" if fn in self.ctx.uses_ext else ""
+                    body += f"if PyVal.eq __n (PyVal.str {lstr(n[len('_process_'):])}) then {fn}{ext} self value else "
+            body += "pure value"
+            self.ctx.dispatchers[dname] = (f"def {dname} (ext : PyRt.Oracle) (self value : PyVal) : M PyVal := do\n"
+                                           f"  let __n ← PyRt.getattr self \"name\"\n  {body}")
+            self.ctx.dispatcher_deps[dname] = deps
+        self.ctx.deps.setdefault(self.ctx.current, set()).add(dname)
+        return dname
+
+    def x6_elf_call(self, e, kws):
+        f, a = e.func, e.args
+        prim = {"__x6_seek": "PyElf.seek", "__x6_read": "PyElf.read", "__x6_fsdecode": "PyElf.fsdecode",
+                "__x6_strip_chars": "PyElf.str_strip_chars", "__x6_bytes": "PyElf.bytes_of", "__x6_read_struct": "PyElf.read_struct"}
+        if f.id == "__x6_read_struct":
+            impl = self.ctx.lookup(self.owner, "_read") if self.owner is not None else None
+            if not inspect.isfunction(impl) or _fn_digest(impl) != X6_ELF_READ_GUARD:
+                raise Unsupported("ELFFile._read is not the method the primitive PyElf.read_struct mirrors")
+        if f.id in prim:
+            self.ctx.imports.add(X6_ELF_IMPORT)
+            return False, prim[f.id] + "".join(" " + self.val(x) for x in a)
+        if f.id == "__x6_bytes_lit":
+            self.ctx.imports.add(X6_ELF_IMPORT)
+            return True, "(PyElf.ofBytes [" + ", ".join(str(b) for b in bytes.fromhex(a[0].value)) + "])"
+        return None
+    # ================================================================================================ x6 end
+
+
+# ---------------------------------------------------------------------------------------------- x6: the rewriting pass
+class _X6Rewrite(ast.NodeTransformer):
+    """x6: brings constructs of the platform code into the translated subset (see `Fn.x6_prepare`); every rewrite keeps
+    Python's evaluation order, and what cannot be rewritten faithfully is left alone (and then refused by the translator)"""
+
+    def __init__(self, fn):
+        self.fn = fn
+        self.g = fn.globals
+        self.n = 0
+        self.nts = {k: v for k, v in self.g.items() if inspect.isclass(v) and issubclass(v, tuple) and hasattr(v, "_fields")
+                    and (v.__module__ or "").startswith("packaging")}
+        idx = {}
+        for c in self.nts.values():
+            for i, fld in enumerate(c._fields):
+                idx.setdefault(fld, set()).add(i)
+        self.nt_index = {fld: next(iter(s)) for fld, s in idx.items() if len(s) == 1}
+        self.elf = fn.pyfunc.__module__ == "packaging._elffile"
+        self.md = fn.pyfunc.__module__ == "packaging.metadata"
+        self.msg_locals = set()
+        self.me = fn.node.args.args[0].arg if fn.node.args.args else None
+        self.in_return = False
+
+    def run(self, node):
+        self.local_names = {n.id for n in ast.walk(node) if isinstance(n, ast.Name) and isinstance(n.ctx, ast.Store)} \
+            | {a.arg for a in node.args.args + node.args.kwonlyargs}
+        self.const_locals = {}
+        for n in ast.walk(node):
+            if isinstance(n, ast.Assign) and len(n.targets) == 1 and isinstance(n.targets[0], ast.Name):
+                self.const_locals.setdefault(n.targets[0].id, []).append(n.value)
+        for n in ast.walk(node):
+            if isinstance(n, ast.Import):
+                self.local_names |= {a.name for a in n.names}
+        # a local bound once to a set display of constants and only used as the right operand of `in` is read as a tuple
+        for name, vals in self.const_locals.items():
+            if len(vals) == 1 and isinstance(vals[0], ast.Set) and all(isinstance(x, ast.Constant) and isinstance(x.value, (str, int))
+                                                                     for x in vals[0].elts):
+                dead = {id(x) for r in ast.walk(node) if isinstance(r, ast.Raise) for x in ast.walk(r)}    # messages are dropped
+                uses = [n for n in ast.walk(node) if isinstance(n, ast.Name) and n.id == name and isinstance(n.ctx, ast.Load)
+                        and id(n) not in dead]
+                ok = {id(c.comparators[0]) for c in ast.walk(node) if isinstance(c, ast.Compare) and len(c.ops) == 1
+                      and isinstance(c.ops[0], (ast.In, ast.NotIn))}
+                if uses and all(id(u) in ok for u in uses):
+                    for a in ast.walk(node):
+                        if isinstance(a, ast.Assign) and a.value is vals[0]:
+                            a.value = ast.copy_location(ast.Tuple(elts=list(vals[0].elts), ctx=ast.Load()), vals[0])
+        self.seek_first = self.elf and node.name != "__init__" and self.seeks_before_reads(node.body)
+        if self.md:
+            for name, vals in self.const_locals.items():
+                if len(vals) == 1 and isinstance(vals[0], ast.Call) and _dotted(vals[0].func) == ["email", "message", "EmailMessage"] \
+                        and not vals[0].args and not vals[0].keywords and self.is_global("email"):
+                    stores = [n for n in ast.walk(node) if isinstance(n, ast.Subscript) and isinstance(n.ctx, ast.Store)
+                              and isinstance(n.value, ast.Name) and n.value.id == name]
+                    if len(stores) == 1 and isinstance(stores[0].slice, ast.Constant) and stores[0].slice.value == "content-type":
+                        self.msg_locals.add(name)
+            self._params_locals = self.params_locals_scan()
+        if self.md and self.fn.pyfunc.__qualname__ == "_Validator.__get__":
+            node.body = self.validator_get(node)
+            return node
+        node.body = self.block(node.body)
+        return node
+
+    def block(self, stmts):
+        out = []
+        for st in stmts:
+            r = self.visit(st)
+            out.extend(r if isinstance(r, list) else [r])
+        return out
+
+    def fresh(self):
+        self.n += 1
+        return f"__x6t{self.n}"
+
+    def call(self, name, *args):
+        return ast.Call(func=ast.Name(id=name, ctx=ast.Load()), args=list(args), keywords=[])
+
+    def is_global(self, name):
+        return name not in self.local_names and name in self.g
+
+    # -- statements
+    def generic_block(self, node):
+        for field in ("body", "orelse", "finalbody"):
+            if isinstance(getattr(node, field, None), list) and getattr(node, field) and isinstance(getattr(node, field)[0], ast.stmt):
+                setattr(node, field, self.block(getattr(node, field)))
+        return node
+
+    def visit_Import(self, node):
+        if len(node.names) == 1 and node.names[0].asname is None and "." not in node.names[0].name:
+            m = node.names[0].name
+            return ast.copy_location(ast.Assign(targets=[ast.Name(id=m, ctx=ast.Store())],
+                                                value=self.call("__x6_import", ast.Constant(m))), node)
+        return node
+
+    def visit_With(self, node):
+        node = self.generic_visit(node)
+        if len(node.items) == 1:
+            it = node.items[0]
+            c = it.context_expr
+            if isinstance(c, ast.Call) and isinstance(c.func, ast.Name) and c.func.id in X6_ENV_CONTEXTS and self.is_global(c.func.id) \
+                    and isinstance(it.optional_vars, ast.Name):
+                return [ast.copy_location(ast.Assign(targets=[ast.Name(id=it.optional_vars.id, ctx=ast.Store())], value=c), node)] \
+                    + list(node.body)
+        return node
+
+    def visit_Assign(self, node):
+        pre = []
+        if self.elf and self.is_self_call(node.value, "_read") and len(node.value.args) == 1 and self.seek_first:
+            # every read of this method follows a `seek`: the position a read leaves behind is never observed
+            fmt = self.visit(node.value.args[0])
+            node.value = ast.Subscript(value=self.call("__x6_read_struct", ast.Name(id=self.me, ctx=ast.Load()), fmt),
+                                       slice=ast.Constant(0), ctx=ast.Load())
+            return self.x6_visit_assign_done(node)
+        if self.elf and self.is_self_call(node.value, "_read") and len(node.value.args) == 1:
+            # `x = self._read(fmt)`: the file position moves, so `self` is rebound together with the result
+            t = self.fresh()
+            self.local_names.add(t)
+            fmt = self.visit(node.value.args[0])
+            pre = [ast.copy_location(ast.Assign(
+                targets=[ast.Tuple(elts=[ast.Name(id=t, ctx=ast.Store()), ast.Name(id=self.me, ctx=ast.Store())], ctx=ast.Store())],
+                value=self.call("__x6_read_struct", ast.Name(id=self.me, ctx=ast.Load()), fmt)), node)]
+            node.value = ast.Name(id=t, ctx=ast.Load())
+        r = self.x6_visit_assign(node)
+        return pre + (r if isinstance(r, list) else [r]) if pre else r
+
+    def validator_get(self, node):
+        """`_Validator.__get__(self, instance, _owner)`: see the comment at `X6_FUNCTIONS`; every statement must have one of the
+        shapes below, anything else is left for the translator to refuse"""
+        me, inst = node.args.args[0].arg, node.args.args[1].arg
+        name = lambda n, ctx=ast.Load: ast.Name(id=n, ctx=ctx())
+        alias = None
+        out = []
+
+        def is_attr(e, obj, attr):
+            return isinstance(e, ast.Attribute) and e.attr == attr and isinstance(e.value, ast.Name) and e.value.id == obj
+
+        class Expr(ast.NodeTransformer):
+            def visit_Call(s2, c):
+                c = s2.generic_visit(c)
+                f = c.func
+                if isinstance(f, ast.Attribute) and f.attr == "get" and is_attr(f.value, inst, "_raw") and len(c.args) == 1 and not c.keywords:
+                    return self.call("__x6_dict_get", f.value, c.args[0], ast.Constant(None))
+                return c
+
+            def visit_Compare(s2, c):
+                c = s2.generic_visit(c)
+                r = c.comparators[0] if len(c.ops) == 1 else None
+                if isinstance(r, ast.Name) and isinstance(c.ops[0], (ast.In, ast.NotIn)) and self.is_global(r.id) \
+                        and isinstance(self.g[r.id], frozenset) and all(isinstance(x, str) for x in self.g[r.id]):
+                    c.comparators = [ast.Tuple(elts=[ast.Constant(x) for x in sorted(self.g[r.id])], ctx=ast.Load())]
+                return c
+
+        def stmts(body):
+            nonlocal alias
+            res = []
+            for st in body:
+                if isinstance(st, ast.Expr) and isinstance(st.value, ast.Constant):
+                    continue
+                if isinstance(st, ast.Assign) and len(st.targets) == 1 and isinstance(st.targets[0], ast.Name) \
+                        and is_attr(st.value, inst, "__dict__") and alias is None:
+                    alias = st.targets[0].id                     # `cache = instance.__dict__`
+                    continue
+                if isinstance(st, ast.Try) and len(st.body) == 1 and isinstance(st.body[0], (ast.Assign, ast.AnnAssign)) and not st.finalbody \
+                        and len(st.handlers) == 1 and isinstance(st.handlers[0].type, ast.Name) and st.handlers[0].type.id == "AttributeError" \
+                        and len(st.handlers[0].body) == 1 and isinstance(st.handlers[0].body[0], ast.Pass) and len(st.orelse) == 1:
+                    b, e = st.body[0], st.orelse[0]
+                    v = b.value
+                    bt = b.targets[0] if isinstance(b, ast.Assign) else b.target
+                    conv = bt.id if isinstance(bt, ast.Name) else None
+                    ok = isinstance(v, ast.Call) and isinstance(v.func, ast.Name) and v.func.id == "getattr" and len(v.args) == 2 \
+                        and isinstance(v.args[0], ast.Name) and v.args[0].id == me and isinstance(v.args[1], ast.JoinedStr) \
+                        and len(v.args[1].values) == 2 and isinstance(v.args[1].values[0], ast.Constant) \
+                        and v.args[1].values[0].value == "_process_" and isinstance(v.args[1].values[1], ast.FormattedValue) \
+                        and is_attr(v.args[1].values[1].value, me, "name") and v.args[1].values[1].conversion == -1
+                    ok = ok and isinstance(e, ast.Assign) and len(e.targets) == 1 and isinstance(e.targets[0], ast.Name) \
+                        and isinstance(e.value, ast.Call) and isinstance(e.value.func, ast.Name) and e.value.func.id == conv \
+                        and len(e.value.args) == 1 and isinstance(e.value.args[0], ast.Name) and e.value.args[0].id == e.targets[0].id \
+                        and not e.value.keywords
+                    if ok:
+                        res.append(ast.copy_location(ast.Assign(targets=[name(e.targets[0].id, ast.Store)],
+                                                                value=self.call("__x6_process", name(me), name(e.targets[0].id))), st))
+                        continue
+                if isinstance(st, ast.Assign) and len(st.targets) == 1 and isinstance(st.targets[0], ast.Subscript) \
+                        and isinstance(st.targets[0].value, ast.Name) and st.targets[0].value.id == alias and alias is not None:
+                    res.append(ast.copy_location(ast.Assign(
+                        targets=[name(inst, ast.Store)],
+                        value=self.call("__x6_setattr_dyn", name(inst), Expr().visit(st.targets[0].slice), Expr().visit(st.value))), st))
+                    continue
+                if isinstance(st, ast.Delete) and len(st.targets) == 1 and isinstance(st.targets[0], ast.Subscript) \
+                        and is_attr(st.targets[0].value, inst, "_raw"):
+                    res.append(ast.copy_location(ast.Assign(
+                        targets=[name(inst, ast.Store)],
+                        value=self.call("__x6_del_item", name(inst), ast.Constant("_raw"), Expr().visit(st.targets[0].slice))), st))
+                    continue
+                if isinstance(st, ast.Return) and st.value is not None:
+                    res.append(ast.copy_location(ast.Return(value=ast.Tuple(elts=[Expr().visit(st.value), name(inst)], ctx=ast.Load())), st))
+                    continue
+                if isinstance(st, (ast.If, ast.Try)):
+                    if isinstance(st, ast.If):
+                        st.test = Expr().visit(st.test)
+                    st.body = stmts(st.body)
+                    st.orelse = stmts(st.orelse)
+                    for h in getattr(st, "handlers", []):
+                        h.body = stmts(h.body)
+                    res.append(st)
+                    continue
+                res.append(Expr().visit(st))
+            return res
+
+        return stmts(node.body)
+
+    def params_locals(self):
+        return getattr(self, "_params_locals", set())
+
+    def params_locals_scan(self):
+        """locals bound (in a parallel assignment) to `message["content-type"].params`: dicts of strings"""
+        out = set()
+        for n in ast.walk(self.fn.node):
+            if isinstance(n, ast.Assign) and len(n.targets) == 1 and isinstance(n.targets[0], ast.Tuple) \
+                    and isinstance(n.value, ast.Tuple) and len(n.value.elts) == len(n.targets[0].elts):
+                for t, v in zip(n.targets[0].elts, n.value.elts):
+                    if isinstance(t, ast.Name) and isinstance(v, ast.Attribute) and v.attr == "params" \
+                            and isinstance(v.value, ast.Subscript) and isinstance(v.value.value, ast.Name) \
+                            and v.value.value.id in self.msg_locals:
+                        out.add(t.id)
+        return out
+
+    def x6_visit_assign_done(self, node):
+        node.targets = [self.visit(t) for t in node.targets]
+        return node
+
+    def uses_file(self, st):
+        return any((self.is_self_call(n, "_read") or self.is_file_call(n, "read")) for n in ast.walk(st))
+
+    def seeks_before_reads(self, stmts):
+        """every statement that reads the file comes directly after a `self._f.seek(…)` statement of the same block (a `try` whose
+        first statement is the only reader counts as that statement)"""
+        for i, st in enumerate(stmts):
+            if not self.uses_file(st):
+                continue
+            prev_seek = i > 0 and isinstance(stmts[i - 1], ast.Expr) and self.is_file_call(stmts[i - 1].value, "seek")
+            if isinstance(st, (ast.Assign, ast.Return)):
+                if not prev_seek:
+                    return False
+            elif isinstance(st, ast.Try) and prev_seek and st.body and isinstance(st.body[0], ast.Assign) \
+                    and not any(self.uses_file(x) for x in st.body[1:] + st.orelse + st.finalbody) \
+                    and not any(self.uses_file(x) for h in st.handlers for x in h.body):
+                continue
+            elif isinstance(st, (ast.For, ast.While, ast.If, ast.Try, ast.With)):
+                blocks = [getattr(st, k) for k in ("body", "orelse", "finalbody") if getattr(st, k, None)]
+                blocks += [h.body for h in getattr(st, "handlers", [])]
+                if not all(self.seeks_before_reads(b) for b in blocks):
+                    return False
+            else:
+                return False
+        return True
+
+    def is_self_call(self, e, attr):
+        return isinstance(e, ast.Call) and isinstance(e.func, ast.Attribute) and e.func.attr == attr \
+            and isinstance(e.func.value, ast.Name) and e.func.value.id == self.me and not e.keywords
+
+    def is_file_call(self, e, attr):
+        return isinstance(e, ast.Call) and isinstance(e.func, ast.Attribute) and e.func.attr == attr and not e.keywords \
+            and isinstance(e.func.value, ast.Attribute) and e.func.value.attr == "_f" \
+            and isinstance(e.func.value.value, ast.Name) and e.func.value.value.id == self.me
+
+    def visit_Expr(self, node):
+        if self.elf and self.is_file_call(node.value, "seek") and len(node.value.args) == 1:
+            off = self.visit(node.value.args[0])
+            return ast.copy_location(ast.Assign(targets=[ast.Name(id=self.me, ctx=ast.Store())],
+                                                value=self.call("__x6_seek", ast.Name(id=self.me, ctx=ast.Load()), off)), node)
+        return self.generic_visit(node)
+
+    def visit_Return(self, node):
+        self.in_return = True
+        try:
+            return self.generic_visit(node)
+        finally:
+            self.in_return = False
+
+    def visit_Constant(self, node):
+        if self.elf and isinstance(node.value, bytes):
+            return ast.copy_location(self.call("__x6_bytes_lit", ast.Constant(node.value.hex())), node)
+        return node
+
+    def x6_visit_assign(self, node):
+        if self.md and len(node.targets) == 1:
+            t = node.targets[0]
+            if isinstance(t, ast.Name) and t.id in self.msg_locals and isinstance(node.value, ast.Call) \
+                    and _dotted(node.value.func) == ["email", "message", "EmailMessage"]:
+                node.value = ast.copy_location(ast.Constant(None), node.value)      # nothing is known of the message yet
+                return node
+            if isinstance(t, ast.Subscript) and isinstance(t.value, ast.Name) and t.value.id in self.msg_locals:
+                v = self.visit(node.value)
+                return ast.copy_location(ast.Assign(targets=[ast.Name(id=t.value.id, ctx=ast.Store())],
+                                                    value=self.call("__x6_ext", ast.Constant("EmailMessage.set_content_type"), v)), node)
+        node = self.generic_visit(node)
+        if len(node.targets) == 1 and isinstance(node.targets[0], (ast.Tuple, ast.List)):
+            elts = node.targets[0].elts
+            plain = all(isinstance(t, ast.Name) for t in elts)
+            simple = all(isinstance(t, ast.Name) or (isinstance(t, ast.Attribute) and isinstance(t.value, ast.Name)) for t in elts)
+            parallel = isinstance(node.value, (ast.Tuple, ast.List)) and len(node.value.elts) == len(elts)
+            if simple and not parallel and (len(elts) > 3 or not plain):
+                t = self.fresh()
+                self.local_names.add(t)
+                out = [ast.Assign(targets=[ast.Name(id=t, ctx=ast.Store())],
+                                  value=self.call("__x6_unpack", node.value, ast.Constant(len(elts))))]
+                for i, tgt in enumerate(elts):
+                    out.append(ast.Assign(targets=[tgt], value=ast.Subscript(value=ast.Name(id=t, ctx=ast.Load()),
+                                                                             slice=ast.Constant(i), ctx=ast.Load())))
+                return [ast.copy_location(x, node) for x in out]
+        return node
+
+    # -- expressions
+    def visit_Attribute(self, node):
+        node = self.generic_visit(node)
+        if not isinstance(node.ctx, ast.Load):
+            return node
+        b = node.value
+        if self.md and node.attr == "params" and isinstance(b, ast.Subscript) and isinstance(b.value, ast.Name) \
+                and b.value.id in self.msg_locals and isinstance(b.slice, ast.Constant) and b.slice.value == "content-type":
+            return ast.copy_location(ast.Subscript(value=b.value, slice=ast.Constant(1), ctx=ast.Load()), node)
+        if isinstance(b, ast.Name) and self.is_global(b.id):
+            import enum
+            v = self.g[b.id]
+            if inspect.isclass(v) and issubclass(v, enum.Enum) and node.attr in v.__members__ and isinstance(v[node.attr].value, int):
+                return ast.copy_location(ast.Constant(int(v[node.attr].value)), node)
+            if inspect.ismodule(v) or inspect.isclass(v):
+                return node
+        if node.attr == "stdout" and isinstance(b, ast.Call) and _dotted(b.func) == ["subprocess", "run"] and self.is_global("subprocess"):
+            return ast.copy_location(self.call("__x6_env_read", ast.Constant(ast.unparse(node))), node)
+        if node.attr in self.nt_index and not (isinstance(b, ast.Name) and b.id in ("self", "cls")):
+            return ast.copy_location(ast.Subscript(value=b, slice=ast.Constant(self.nt_index[node.attr]), ctx=ast.Load()), node)
+        return node
+
+    def visit_Call(self, node):
+        node = self.generic_visit(node)
+        f = node.func
+        if self.md and self.msg_locals:
+            if isinstance(f, ast.Attribute) and f.attr == "lower" and not node.args and not node.keywords \
+                    and isinstance(f.value, ast.Call) and isinstance(f.value.func, ast.Attribute) \
+                    and f.value.func.attr == "get_content_type" and isinstance(f.value.func.value, ast.Name) \
+                    and f.value.func.value.id in self.msg_locals and not f.value.args and not f.value.keywords:
+                return ast.copy_location(ast.Subscript(value=f.value.func.value, slice=ast.Constant(0), ctx=ast.Load()), node)
+            if isinstance(f, ast.Attribute) and f.attr == "get" and len(node.args) == 2 and not node.keywords \
+                    and isinstance(f.value, ast.Name) and f.value.id in self.params_locals():
+                return ast.copy_location(self.call("__x6_dict_get", f.value, node.args[0], node.args[1]), node)
+        if self.elf:
+            if self.is_file_call(node, "read") and len(node.args) == 1 and self.in_return:
+                return ast.copy_location(self.call("__x6_read", ast.Name(id=self.me, ctx=ast.Load()), node.args[0]), node)
+            if _dotted(f) == ["os", "fsdecode"] and self.is_global("os") and len(node.args) == 1 and not node.keywords:
+                return ast.copy_location(self.call("__x6_fsdecode", node.args[0]), node)
+            if isinstance(f, ast.Attribute) and f.attr == "strip" and len(node.args) == 1 and not node.keywords:
+                return ast.copy_location(self.call("__x6_strip_chars", f.value, node.args[0]), node)
+            if isinstance(f, ast.Name) and f.id == "bytes" and f.id not in self.local_names and len(node.args) == 1 and not node.keywords:
+                return ast.copy_location(self.call("__x6_bytes", node.args[0]), node)
+        if isinstance(f, ast.Name) and self.is_global(f.id) and self.g[f.id] in self.nts.values():
+            c = self.g[f.id]
+            if len(node.args) == 1 and isinstance(node.args[0], ast.Starred) and not node.keywords:
+                return ast.copy_location(self.call("__x6_tuple_n", node.args[0].value, ast.Constant(len(c._fields))), node)
+            if not any(isinstance(a, ast.Starred) for a in node.args) and all(k.arg is not None for k in node.keywords):
+                names = list(c._fields[:len(node.args)]) + [k.arg for k in node.keywords]
+                if names == list(c._fields):       # every field, in field order: evaluation order is the display's
+                    return ast.copy_location(ast.Tuple(elts=list(node.args) + [k.value for k in node.keywords], ctx=ast.Load()), node)
+            return node
+        # a parameter left to its default, where the default is a probe of the interpreter (`_32_BIT_INTERPRETER`)
+        if isinstance(f, ast.Name) and self.is_global(f.id) and inspect.isfunction(self.g[f.id]) \
+                and (self.g[f.id].__module__ or "").startswith("packaging") and not any(isinstance(a, ast.Starred) for a in node.args) \
+                and all(k.arg is not None for k in node.keywords):
+            try:
+                fd = ast.parse(textwrap.dedent(inspect.getsource(self.g[f.id]))).body[0]
+            except (OSError, SyntaxError, TypeError):
+                fd = None
+            if isinstance(fd, ast.FunctionDef) and not fd.args.vararg and not fd.args.kwonlyargs:
+                params = [a.arg for a in fd.args.args]
+                defaults = dict(zip(params[len(params) - len(fd.args.defaults):], fd.args.defaults))
+                given = set(params[:len(node.args)]) | {k.arg for k in node.keywords}
+                for p_ in params:
+                    d = defaults.get(p_)
+                    if p_ not in given and isinstance(d, ast.Name) and d.id in EXTERNAL_READS and d.id in self.g[f.id].__globals__ \
+                            and d.id in self.g:
+                        node.keywords.append(ast.keyword(arg=p_, value=ast.Name(id=d.id, ctx=ast.Load())))
+            return node
+        if isinstance(f, ast.Attribute) and f.attr == "get" and isinstance(f.value, ast.Dict) and len(node.args) in (1, 2) \
+                and not node.keywords and all(isinstance(k, ast.Constant) and isinstance(k.value, str) for k in f.value.keys):
+            d = node.args[1] if len(node.args) == 2 else ast.Constant(None)
+            return ast.copy_location(self.call("__x6_dict_get", f.value, node.args[0], d), node)
+        # `template.format(k=v, …)`: an f-string, when the fields are the keywords in their order
+        if isinstance(f, ast.Attribute) and f.attr == "format" and not node.args and node.keywords \
+                and all(k.arg is not None for k in node.keywords):
+            tmpl = None
+            if isinstance(f.value, ast.Constant) and isinstance(f.value.value, str):
+                tmpl = f.value.value
+            elif isinstance(f.value, ast.Name) and len(self.const_locals.get(f.value.id, [])) == 1 \
+                    and isinstance(self.const_locals[f.value.id][0], ast.Constant) and isinstance(self.const_locals[f.value.id][0].value, str) \
+                    and f.value.id not in {a.arg for a in self.fn.node.args.args}:
+                tmpl = self.const_locals[f.value.id][0].value
+            if tmpl is not None:
+                import string
+                try:
+                    parts = list(string.Formatter().parse(tmpl))
+                except ValueError:
+                    return node
+                fields = [p[1] for p in parts if p[1] is not None]
+                if fields == [k.arg for k in node.keywords] and all(not p[2] and p[3] is None for p in parts if p[1] is not None):
+                    vals = {k.arg: k.value for k in node.keywords}
+                    js = []
+                    for lit, fld, _, _ in parts:
+                        if lit:
+                            js.append(ast.Constant(lit))
+                        if fld is not None:
+                            js.append(ast.FormattedValue(value=vals[fld], conversion=-1, format_spec=None))
+                    return ast.copy_location(ast.JoinedStr(values=js), node)
+        return node
+
+    def gdict_name(self, e):
+        if isinstance(e, ast.Name) and self.is_global(e.id) and isinstance(self.g[e.id], dict):
+            d = self.g[e.id]
+            try:
+                for k, v in d.items():
+                    lconst(k), lconst(v)
+            except Unsupported:
+                return None
+            return e.id
+        return None
+
+    def visit_Compare(self, node):
+        node = self.generic_visit(node)
+        if len(node.ops) == 1 and isinstance(node.ops[0], (ast.In, ast.NotIn)):
+            name = self.gdict_name(node.comparators[0])
+            if name is not None:
+                c = self.call("__x6_gdict_contains", ast.Constant(name), node.left)
+                if isinstance(node.ops[0], ast.NotIn):
+                    c = ast.UnaryOp(op=ast.Not(), operand=c)
+                return ast.copy_location(c, node)
+        return node
+
+    def visit_Subscript(self, node):
+        node = self.generic_visit(node)
+        if isinstance(node.ctx, ast.Load) and not isinstance(node.slice, ast.Slice):
+            name = self.gdict_name(node.value)
+            if name is not None:
+                return ast.copy_location(self.call("__x6_gdict_getitem", ast.Constant(name), node.slice), node)
+            if isinstance(node.value, ast.Dict) and node.value.keys and all(k is not None for k in node.value.keys):
+                try:
+                    for k in node.value.keys:
+                        lconst(ast.literal_eval(k))
+                except (ValueError, Unsupported):
+                    return node
+                return ast.copy_location(self.call("__x6_dict_lookup", node.value, node.slice), node)
+        return node
+
+    def visit_BinOp(self, node):
+        node = self.generic_visit(node)
+        if isinstance(node.op, ast.BitAnd):
+            return ast.copy_location(self.call("__x6_bitand", node.left, node.right), node)
+        return node
+
+    def visit_FunctionDef(self, node):
+        return node                  # nested scopes are not entered (the outermost function is handled by `run`)
+
+    visit_Lambda = visit_ClassDef = visit_AsyncFunctionDef = visit_FunctionDef
 
 
 _CMP = {ast.Lt: "lt", ast.LtE: "le", ast.Gt: "gt", ast.GtE: "ge"}
